@@ -1,7 +1,7 @@
 """C01 - safe loading is confined to plain data (confinement argument over the program text)."""
 import sys
 
-from sa import report, rules_registry as RR, rules_confine as RC
+from sa import report, effects as E, rules_registry as RR, rules_confine as RC
 
 UNIVERSES = RR.SAFE_LOADERS + RR.BASE_LOADERS
 
@@ -27,6 +27,7 @@ def run(ctx, repo):
     RR.r_registry_decl(ctx, repo)
     RR.r_cow(ctx, repo, only=['yaml_constructors', 'yaml_multi_constructors'])
     RR.r_sole_writer(ctx, repo)
+    E.r_global_readonly(ctx, repo)
     RR.r_fanout(ctx, repo)
     RR.r_dispatch_self(ctx, repo)
     RC.r_loader_composition(ctx, repo, {
